@@ -213,6 +213,10 @@ def history_variant(rng, system, which=None, workdir=None):
     which = which or HISTORIES[int(rng.integers(len(HISTORIES)))]
     if which == "as_built":
         return system, which
+    if which.startswith("ws_dist") and not all(system.periodic):
+        # do_ws_dist on a partially periodic system may select replicas with a non-zero component along the non-periodic direction (the
+        # Wigner-Seitz cell is Cartesian), which contradicts the declaration and is rejected by the file readers: not generated
+        which = which.replace("ws_dist+", "").replace("ws_dist", "rvec_copy")
     if which.startswith("ws_dist"):
         mp = [int(x) if p else 1 for x, p in zip(rng.integers(3, 6, size=3), system.periodic)]
         with env.quiet():
